@@ -542,9 +542,10 @@ def contains(container, x):
         if container.step == 1:
             return And(x >= container.start, x < container.stop)
         raise Unsupported("symbolic membership in strided range")
-    if isinstance(container, str):
+    try:
         return x in container
-    return x in container
+    except TypeError as ex:
+        raise Unsupported("membership test failed natively: %s" % ex)
 
 
 def smin(*args, key=None, default=None):
